@@ -370,7 +370,11 @@ class _NumericOperationsImpl(OperationsBlock):
                         opx.const([], dtype=dtypes.int64),
                     )
                 )
-        return _via_i64_f64(lambda x: opx.arg_max(x, axis=axis, keepdims=keepdims), [x])
+        return _via_i64_f64(
+            lambda x: opx.arg_max(x, axis=axis, keepdims=keepdims),
+            [x],
+            cast_return=False,
+        )
 
     @validate_core
     def argmin(self, x, axis=None, keepdims=False):
@@ -390,7 +394,11 @@ class _NumericOperationsImpl(OperationsBlock):
                         opx.const([], dtype=dtypes.int64),
                     )
                 )
-        return _via_i64_f64(lambda x: opx.arg_min(x, axis=axis, keepdims=keepdims), [x])
+        return _via_i64_f64(
+            lambda x: opx.arg_min(x, axis=axis, keepdims=keepdims),
+            [x],
+            cast_return=False,
+        )
 
     @validate_core
     def nonzero(self, x) -> tuple[Array, ...]:
